@@ -164,7 +164,7 @@ CHECKS["C04"] = {
             "body mode in {none, SetBodyString, SetBody, repeated ctx.Write, repeated AppendBody, SetBodyStream(known length), SetBodyStream(-1), SetBodyStream(LimitedReader,-1), hijacked chunked writer with arbitrary Write/Flush pattern}; sizes centred on 4 KiB/8 KiB/64 KiB; stream readers delivering arbitrary piece sizes; optional trailers and SetConnectionClose. "
             "grid unit: exhaustive status x mode x method x protocol x size class x status-before/after, each followed by a second response. Non-trivial = stream/chunked-writer body, or a body set on a bodiless status/HEAD; distinct by FNV-64 of the case. Round 4: zero-length writes before every real one (ctx.Write and chunked writer), Content-Length set through the header API after SetBodyStream(r,-1), a status set first and replaced after the body was set (known finding D48 for bodiless-first).",
     "assumptions": [
-        "documented exclusion: the hijacked chunked writer is not installed when (method, status) forbids a body; with it, status and headers are set before the first Write",
+        "documented exclusion (the property's quantifier): the hijacked chunked writer is not installed when (method, status) forbids a body; with it, status and headers are set before the first Write. Inside the quantifier and generated since round 7: installed under 200 to a GET/POST, nothing written, status then 204/304/1xx",
         "stream readers deliver exactly the declared number of bytes and never (0, nil); header values are non-empty (setting an empty value is a deletion in this API)",
         "default headers hertz adds (Server, Date, Content-Type) are ignored; the presence of Connection: close is not asserted (only that nothing follows and the connection is closed)",
     ],
@@ -537,7 +537,7 @@ for _k, _v in ROUND6.items():
 # Round 7 (fourth hunt, DESIGN 8.9): what each rule gained.
 ROUND7 = {
     "C01": "an empty continuation line behind a folded value (OWS in front of a trailing fold); a declared trailer field sent on two field lines (both values reach the handler, as two entries or combined).",
-    "C04": "a stream of another length set under the initial 200 before a bodiless pre-status (EarlierStream); the chunked writer is crossed with every method and status (HEAD, 1xx, 204, 304 included: an exclusion of earlier rounds was withdrawn); known finding D154 for HEAD + Response.Reset() + chunked writer.",
+    "C04": "a stream of another length set under the initial 200 before a bodiless pre-status (EarlierStream); the chunked writer installed under 200, never written to, with the status set to 204/304/1xx afterwards (the property excludes installing it on a bodiless response, not this).",
     "C09": "unit hijack-after-panic: a handler registers a hijack handler and panics, the next connection's requests are ordinary ones; wiring-setters also assigns ctx.HTMLRender and calls Request.SetIsTLS, which must be back in place for the next request (D60 is the three engine-owned mutators).",
     "C10": "unit helper-late-write: GetTimeout / GetDeadline with a caller-owned dst against a peer that answers after the deadline: dst is not written after the call returned.",
     "C11": "an application retry policy (RetryIfFunc) with multipart requests whose parts are readers; exchanges where the caller sets Response.SkipBody (the next exchange on the host must not read the leftover); until-close responses that offer an upgrade.",
